@@ -348,6 +348,9 @@ def run(ctx):
     models, gens, cached = tv.load_all()
     rule_verdict(ctx, repo)
     rule_handover(ctx, repo)
+    from rules import c05_reinit
+    ctx.rule("C05.reinit", "accumulating initialisers start from cleared arrays on every initialisation", 1)
+    c05_reinit.run_rule(ctx, repo)
     rule_init_order(ctx, models, gens)
     rule_static_dynamic(ctx, models)
     ctx.rule("C05.continuity", "symbolic: equations switched on dae_t give the same injection before and after the hand-over", 2)
